@@ -296,7 +296,13 @@ func TestVerifC16(t *testing.T) {
 		nStruct, nMal = 6000, 14000
 	}
 	var seeds [][]byte
-	for i := 0; i < nStruct; i++ {
+	type built struct {
+		msg             *message.Message
+		coqM, class     string
+		pl              []byte
+		plTerm          string
+	}
+	build := func() built {
 		isReq := r.Bool()
 		f1, k1 := vGenString(r)
 		f2, k2 := vGenString(r)
@@ -305,39 +311,57 @@ func TestVerifC16(t *testing.T) {
 		if plTerm != "" {
 			plCoq = plTerm
 		}
-		var msg *message.Message
+		var x built
 		var err error
-		var coqM string
-		class := ""
 		if isReq {
 			// f1 = call id, f2 = method
-			msg, err = message.NewRequest(string(f1), string(f2), vRawMsg(pl))
-			coqM = fmt.Sprintf("(MReq {| r_method := %s; r_callid := %s; r_payload := %s |})", vCoqBytes(f2), vCoqBytes(f1), plCoq)
-			class = "enc-req/" + k1 + "/" + k2 + "/" + k3
+			x.msg, err = message.NewRequest(string(f1), string(f2), vRawMsg(pl))
+			x.coqM = fmt.Sprintf("(MReq {| r_method := %s; r_callid := %s; r_payload := %s |})", vCoqBytes(f2), vCoqBytes(f1), plCoq)
+			x.class = "enc-req/" + k1 + "/" + k2 + "/" + k3
 		} else {
 			var rerr error
 			if len(f2) > 0 {
 				rerr = vErr(f2)
 			}
-			msg, err = message.NewResponse(string(f1), vRawMsg(pl), rerr)
-			coqM = fmt.Sprintf("(MResp {| p_callid := %s; p_payload := %s; p_error := %s |})", vCoqBytes(f1), plCoq, vCoqBytes(f2))
-			class = "enc-resp/" + k1 + "/" + k2 + "/" + k3
+			x.msg, err = message.NewResponse(string(f1), vRawMsg(pl), rerr)
+			x.coqM = fmt.Sprintf("(MResp {| p_callid := %s; p_payload := %s; p_error := %s |})", vCoqBytes(f1), plCoq, vCoqBytes(f2))
+			x.class = "enc-resp/" + k1 + "/" + k2 + "/" + k3
 		}
 		if err != nil {
 			t.Fatalf("constructor failed: %v", err)
 		}
-		b, merr := MarshalProtoMessage(msg)
+		x.pl, x.plTerm = pl, plTerm
+		return x
+	}
+	serialise := func(x built, prefix string) {
+		b, merr := MarshalProtoMessage(x.msg)
 		out := "None"
 		if merr == nil {
-			out = "(Some " + vCoqBytesWith(b, pl, plTerm) + ")"
+			out = "(Some " + vCoqBytesWith(b, x.pl, x.plTerm) + ")"
 		}
-		vEmit(vCase{Class: class, Coq: fmt.Sprintf("CEnc %s %s", coqM, out), Sig: class + "/" + vHexShort(b),
+		vEmit(vCase{Class: prefix + x.class, Coq: fmt.Sprintf("CEnc %s %s", x.coqM, out), Sig: prefix + x.class + "/" + vHexShort(b),
 			Info: map[string]interface{}{"frame_hex": vHexShort(b), "len": len(b), "marshal_err": merr != nil}})
-		if merr == nil {
-			vEmitDecWith("dec-own", b, pl, plTerm)
+		if merr == nil && prefix == "" {
+			vEmitDecWith("dec-own", b, x.pl, x.plTerm)
 			if len(b) < 400 {
 				seeds = append(seeds, b)
 			}
+		}
+	}
+	for i := 0; i < nStruct; i++ {
+		serialise(build(), "")
+	}
+	// several envelopes built before any of them is serialised (calls and replies are prepared concurrently):
+	// each frame is the encoding of its own envelope, whatever was built in between and in whatever order they go out
+	for i := 0; i < nStruct/10; i++ {
+		var xs []built
+		for j, n := 0, 2+r.Intn(3); j < n; j++ {
+			xs = append(xs, build())
+		}
+		for len(xs) > 0 {
+			j := r.Intn(len(xs))
+			serialise(xs[j], "batch/")
+			xs = append(xs[:j], xs[j+1:]...)
 		}
 	}
 	// the empty envelope
